@@ -242,7 +242,7 @@ func c02Derive(c *Ctx) {
 				continue
 			}
 			t := hb.Of(e.Results[0], e.Instr)
-			_, ok := ana.MatchAny(t, "slice(obj(alloc<[4]byte>, call<(encoding/binary.bigEndian).PutUint32>(load(global<encoding/binary.BigEndian>), slice(self, 0, 4), p0)), 0, 4)",
+			_, ok := ana.MatchAny(t, "slice(obj(alloc<[4]byte>, call<(encoding/binary.bigEndian).PutUint32>(load(global<encoding/binary.BigEndian>), slice(self, 0, alt(4, none)), p0)), 0, alt(4, none))",
 				"obj(makeslice<[]byte>(4, 4), call<(encoding/binary.bigEndian).PutUint32>(load(global<encoding/binary.BigEndian>), self, p0))",
 				// the same four bytes written by hand, most significant first
 				"slice(obj(alloc<[4]byte>, store(iaddr(self, 0), conv<byte>(bin<>>>(p0, 24))), store(iaddr(self, 1), conv<byte>(bin<>>>(p0, 16))), store(iaddr(self, 2), conv<byte>(bin<>>>(p0, 8))), store(iaddr(self, 3), conv<byte>(p0))), 0, alt(none, 4))",
